@@ -17,6 +17,7 @@ pub struct Report {
     pub skipped_host: u64,
     pub skipped_unsupported: u64,
     pub pre_failed: u64,
+    pub kf_f7_rows: u64,
     pub per_kind: HashMap<String, u64>,
     pub per_kind_hostfree: HashMap<String, u64>,
     pub side_obs: u64,
@@ -267,6 +268,14 @@ pub fn replay_rows<P: PT, C: Coll<P>>(
         rep.executed += 1;
         *rep.per_action.entry(row["e"]["a"].as_str().unwrap().to_string()).or_default() += 1;
         let st = observe::<P, C>(&c, ctx, o);
+        // finding F7: a call on an OccupiedEntry after its remove()
+        if row["e"]["a"] == "Entry" {
+            if let Some(ops) = row["e"]["ops"].as_array() {
+                if ops.len() >= 2 && ops[0]["o"] == "o_remove" && st.pan {
+                    rep.kf_f7_rows += 1;
+                }
+            }
+        }
         let dr = row.get("dr").and_then(|d| d.as_i64()).unwrap_or(*dr0);
         if dr != 0 {
             rep.drift_rows += 1;
@@ -297,7 +306,7 @@ pub fn report_json(rep: &Report, ptype: &str, coll: &str) -> Value {
     json!({
         "ptype": ptype, "coll": coll,
         "rows": rep.rows, "executed": rep.executed, "skipped_host": rep.skipped_host,
-        "skipped_unsupported": rep.skipped_unsupported, "pre_failed": rep.pre_failed, "side_obs": rep.side_obs, "per_kind": rep.per_kind, "per_kind_hostfree": rep.per_kind_hostfree, "drift_rows": rep.drift_rows, "no_state_row": rep.no_state_row,
+        "skipped_unsupported": rep.skipped_unsupported, "pre_failed": rep.pre_failed, "kf_f7_rows": rep.kf_f7_rows, "side_obs": rep.side_obs, "per_kind": rep.per_kind, "per_kind_hostfree": rep.per_kind_hostfree, "drift_rows": rep.drift_rows, "no_state_row": rep.no_state_row,
         "states": rep.states, "per_action": rep.per_action,
         "mismatch_count": rep.mismatch_count, "mismatches": rep.mismatches, "samples": rep.samples,
     })
